@@ -11,7 +11,8 @@ META = {
             "it returns must be a well-formed prefix tree (independent arity count, labels_to_shape, check_tree, returned Node list), carry only "
             "basis operators, x, a<k> or integer labels, use no parameter the original lacks, and agree with the original under an independent mpmath "
             "evaluator (ESR semantics, two working precisions) at 5 generic points wherever both are defined; a pair that is never defined at the "
-            "same point while one of them is defined somewhere also fails. The index arithmetic of the splices is not verified deductively.",
+            "same point while one of them is defined somewhere also fails. Besides the generated trees, trees with integer leaves (0, 1, 2, -1: the "
+            "intermediate forms the rewriting produces and feeds back into itself) are enumerated for two bases up to complexity 5. The index arithmetic of the splices is not verified deductively.",
     "note": "Bounded; oracle = /verif/harness/oracle.py tree_eval at 50 and 110 digits (points where the two precisions disagree decide nothing). "
             "The label pow_abs (the only spelling for which update_tree combines powers of powers) is in no shipped basis and is not exercised.",
     "technique": "bounded stand-in (exhaustive small complexities, seeded samples above) with an independent enumerator and evaluator on the real code",
@@ -82,6 +83,12 @@ def domain(tier, seed):
         # exp towers of height 5 overflow at every sample point (only one side of 1/e^y = e^-y stays representable): keep that basis at <= 6
         ns = [(n, "enum", 30000) for n in range(5, 7 if "exp" in b[1] and "inv" in b[1] else 8)]
         dom.append((50 + k, nm, b, ns))
+    # intermediate forms: the rewriting produces integer leaves (0, 1, 2, -1) and feeds such trees back into itself
+    INTB = [("int_leaves_log_square", [["x", "a"], ["inv", "log_abs", "square"], ["+", "*", "-", "/", "pow"]]),
+            ("int_leaves_exp_sqrt", [["x", "a"], ["exp", "sqrt_abs", "cube"], ["+", "*", "-", "/", "pow"]])]
+    for k, (nm, b) in enumerate(INTB):
+        ns = [(3, "enum_int", None), (4, "enum_int", 1500 if tier == "quick" else None), (5, "enum_int", 3000 if tier == "quick" else 20000)]
+        dom.append((80 + k, nm, b, ns))
     for k, (nm, b) in enumerate(random_bases(seed, 6 if tier == "quick" else 16)):
         ns = [(n, "enum", cap) for n in range(1, (4 if tier == "quick" else 5) + 1)]
         if tier != "quick":
@@ -118,7 +125,7 @@ def check(run):
             raise CheckerError("no statistics for basis %s" % nm)
         parts = []
         for j in js:
-            if j["mode"] == "enum":
+            if j["mode"] in ("enum", "enum_int"):
                 parts.append("n=%d %s" % (j["n"], "all %d trees" % j["cases"] if j["cases"] == j["total_trees"]
                                           else "%d of %d trees (seeded sample)" % (j["cases"], j["total_trees"])))
             else:
